@@ -106,9 +106,27 @@ func (s *QueryPlanStep) setQuery() *QueryPlanStep {
 	return s
 }
 
+func getDirectivesVariablesList(dl ast.DirectiveList) []string {
+	var args []string
+	for _, d := range dl {
+		for _, a := range d.Arguments {
+			if a.Value != nil && a.Value.Kind == ast.Variable {
+				args = append(args, a.Value.Raw)
+			}
+		}
+	}
+	return args
+}
+
 func getVariablesList(s ast.SelectionSet) []string {
 	var args []string
+	for _, sel := range s {
+		if frag, ok := sel.(*ast.InlineFragment); ok {
+			args = append(args, getDirectivesVariablesList(frag.Directives)...)
+		}
+	}
 	for _, f := range common.SelectionSetToFields(s, nil) {
+		args = append(args, getDirectivesVariablesList(f.Directives)...)
 		for _, a := range f.Arguments {
 			if len(a.Value.Children) > 0 {
 				args = append(args, getArgumentListChildrenVariablesList(a.Value.Children)...)
